@@ -34,11 +34,18 @@ PROPS = {
                     4: 'longer-matching-pattern-exists', 5: 'default-although-a-route-matches', 6: 'variables-not-the-substrings',
                     7: 'middleware-order', 8: 'concurrent-dispatch-to-non-matching-pattern', 9: 'concurrent-dispatch-missed-stable-route',
                     10: 'concurrent-dispatch-wrong-handler-or-variables'},
-        'trusted': [],
-        'assumptions': [],
-        'level_text': '',
-        'level_note': '',
-        'explanation': '',
+        'trusted': [
+            "Go's regexp package (regexp.Compile, MatchString, FindStringSubmatchIndex) is NOT verified: it is modelled by Router/Model.v (parser of the generated expression class, leftmost-first enumeration `ends`, derivative matcher `dmatch`) and tied by differential execution on ASCII inputs only",
+            'sync.RWMutex: the critical sections of mux/router.go are modelled as atomic steps; data-race freedom in the sense of the Go memory model is not a theorem',
+        ],
+        'assumptions': [
+            'paths and patterns are ASCII in the correspondence runs (Go matches runes, the model bytes; they coincide on ASCII)',
+            'sub-expressions stay inside the modelled class: literals, ., \\d, [..] classes with ranges/negation, (?:..), |, greedy * + ? {n} {n,} {n,m}; star bodies are not nullable',
+            'Router.Use is not called concurrently with ServeCOAP (it is not synchronised in the code and not named by the property)',
+        ],
+        'level_text': 'Coq theorems (Properties/C17.v), all closed: QuoteMeta text denotes exactly the literal; derivative matcher and leftmost-first enumeration decide the denotational language; a compiled route matches iff the entire path decomposes as lit0 v1 lit1 .. with v_i in L(re_i) (generic in the sub-expression semantics, and for the concrete class); Router.Match under every map iteration order returns exactly the longest matching routes; ServeCOAP runs exactly one handler (longest match, else the default iff nothing matches); variables are the pieces of a decomposition; middlewares wrap in registration order; under every interleaving of write-locked Handle/HandleRemove/DefaultHandle steps and read-locked dispatch steps each dispatch selects a route registered at its scan whose pattern matches. Model tied to the real Router by differential execution (registration results and compiled regexp text, operation sequences + dispatch, exhaustive small route sets, concurrent mutation run).',
+        'level_note': "Partial: Go's regexp engine is trusted to implement the modelled language/priority semantics (checked by differential execution on the generated class, ASCII only); data-race freedom is proved only as lock discipline of the model (every write to the guarded fields is inside a write-locked step, read-locked steps do not change the state) and supported by a concurrent mutation run, not by the Go memory model.",
+        'explanation': 'Theorems: C17_quote, C17_matcher_correct, C17_enumeration_correct, C17_match_iff(_generic), C17_reference_semantics, C17_scan_exact, C17_select, C17_registered_invariant, C17_vars, C17_middleware_order, C17_concurrent(_invariant), C17_lock_discipline. Correspondence: Handle results + regexp text for catalogue/random templates (valid, malformed, capture-group panic), random operation sequences with overlapping/equal-length routes, metacharacter literals, custom sub-expressions, removals, default changes, middlewares, requests built from Uri-Path options; every set of <=2 (thorough: <=3) of 16 small templates x 19 paths; dispatch during concurrent Handle/HandleRemove/DefaultHandle.',
     },
 }
 
